@@ -16,7 +16,7 @@ for ln in lines:
     info = rest.split(" ", 2)[2] if len(rest.split(" ", 2)) > 2 else ""
     rows.setdefault(name, []).append((prop, verdict, info))
 out = ["# Seeded changes x checks", "",
-       "Each change keeps the repository's 348 tests passing (confirmed in a scratch worktree of the pinned commit); `tools/seedcheck.py` applies it to a scratch worktree of /repo HEAD (`patch_head.diff` where the original no longer applies after the repairs) and runs the check with VERIF_REPO.", "",
+       "Each change keeps the repository's 348 tests passing (confirmed in a scratch worktree of the commit it was seeded on: the pinned commit for round 1, /repo HEAD of the time for `-rK-` rounds); `tools/seedcheck.py` applies it to a scratch worktree of /repo HEAD (`patch_head.diff` where the original no longer applies after later repairs) and runs the quick tier of the check named in the `check` column with VERIF_REPO. Rows whose `check` differs from `breaks` are cross-checks by a neighbouring property's check. DETECTED = exit 1 with a VIOLATION line, MISSED = exit 0, INCONCLUSIVE = exit 2.", "",
        "| change | breaks | what was changed | needs | check | verdict | first mechanism reported |", "|---|---|---|---|---|---|---|"]
 for name in sorted(os.listdir(f"{ROOT}/seeded")):
     d = f"{ROOT}/seeded/{name}"
